@@ -176,7 +176,7 @@ def _step_s(draw):
         return {"calls": draw(P.call_strategy(families=True))}
     if kind == "repeat":
         return {"repeat": draw(st.integers(0, 49))}
-    return {"threads": [draw(st.integers(1, 8)), draw(st.integers(2, 8))]}
+    return {"threads": [draw(st.one_of(st.integers(1, 8), st.just(50))), draw(st.integers(2, 8))]}      # the last few calls, or the whole sequence
 
 
 _step = _step_s()
@@ -246,7 +246,7 @@ def _machine_class(sink):
             self._do({"repeat": i}, lambda: self.ex.run(self.ex.done[i % len(self.ex.done)]))
 
         @precondition(lambda self: len(self.ex.done) > 0)
-        @rule(m=st.integers(1, 8), n=st.integers(2, 8))
+        @rule(m=st.one_of(st.integers(1, 8), st.just(50)), n=st.integers(2, 8))
         def threaded_rerun(self, m, n):
             self._do({"threads": [m, n]}, lambda: self.ex.threaded(m, n))
 
